@@ -13,7 +13,9 @@ import json, os, shutil, subprocess, sys, time
 ROOT = os.path.dirname(os.path.dirname(os.path.abspath(__file__)))
 pid, v, checks = sys.argv[1], sys.argv[2], sys.argv[3]
 tier = sys.argv[4] if len(sys.argv) > 4 else "quick"
-src = f"/tmp/wt-{pid}/out"
+# a later wave: SEEDED_SRC=/tmp/w3-C06/out SEEDED_NAME=C06-c lib/seeded.py C06 a C06
+src = os.environ.get("SEEDED_SRC") or f"/tmp/wt-{pid}/out"
+store_name = os.environ.get("SEEDED_NAME") or f"{pid}-{v}"
 diff, demo, note = f"{src}/{v}.diff", f"{src}/{v}_demo.rs", f"{src}/{v}.md"
 WT = "/tmp/confirm-wt"
 env = dict(os.environ, CARGO_NET_OFFLINE="true", CARGO_TARGET_DIR="/tmp/confirm-target")
@@ -45,7 +47,7 @@ if conf["applies"]:
     conf["demo_fails_with_change"], conf["demo_out_changed"] = (not ok), out
     sh(f"git -C {WT} checkout -- . && git -C {WT} clean -fdq tests src")
 confirmed = all(conf.get(k) for k in ("only_src", "applies", "demo_passes_without_change", "suite_passes_with_change", "demo_fails_with_change"))
-print(f"{pid}-{v}: confirmation:", {k: conf.get(k) for k in ("only_src", "applies", "demo_passes_without_change", "suite_passes_with_change", "demo_fails_with_change")})
+print(f"{store_name}: confirmation:", {k: conf.get(k) for k in ("only_src", "applies", "demo_passes_without_change", "suite_passes_with_change", "demo_fails_with_change")})
 results = {}
 if confirmed:
     r = subprocess.run([os.path.join(ROOT, "lib/mutant.py"), diff, checks, tier], capture_output=True, text=True, cwd=ROOT)
@@ -54,13 +56,13 @@ if confirmed:
         p = line.split()
         if len(p) >= 2 and p[0].startswith("C") and p[1] in ("caught", "missed", "inconclusive"):
             results[p[0]] = {"verdict": p[1], "first_rule": p[2] if len(p) > 2 and p[2] != "|" else ""}
-    out = os.path.join(os.environ.get("VERIF_SEEDED_OUT") or os.path.join(ROOT, "seeded"), f"{pid}-{v}")
+    out = os.path.join(os.environ.get("VERIF_SEEDED_OUT") or os.path.join(ROOT, "seeded"), store_name)
     os.makedirs(out, exist_ok=True)
     shutil.copy(diff, f"{out}/patch.diff"); shutil.copy(demo, f"{out}/demo.rs")
     if os.path.exists(note): shutil.copy(note, f"{out}/note.md")
     meta_path = f"{out}/meta.json"
     meta = json.load(open(meta_path)) if os.path.exists(meta_path) else {}
-    meta.update({"breaks_property": pid, "variant": v, "source": "independent sub-agent given only the property text and a scratch worktree",
+    meta.update({"breaks_property": pid, "variant": store_name.split("-")[-1], "wave": os.environ.get("SEEDED_WAVE", "1"), "source": "independent sub-agent given only the property text and a scratch worktree",
                  "base_commit": sh("git -C /repo rev-parse --short HEAD").stdout.strip(), "files": files,
                  "confirmed_by_me": {"scratch_worktree": WT, **{k: conf[k] for k in conf if k not in ("files",)}},
                  "what_it_needs_to_manifest": meta.get("what_it_needs_to_manifest", "see note.md"),
